@@ -24,12 +24,11 @@ class JobInformation:
     def state(self) -> Optional[JobState]:
         if (self.path / f"{self.scriptname}.done").is_file():
             return JobState.DONE
-        if (self.path / f"{self.scriptname}.failed").is_file():
-            return JobState.ERROR
         if (self.path / f"{self.scriptname}.pid").is_file():
             return JobState.RUNNING
-        else:
-            return None
+        if (self.path / f"{self.scriptname}.failed").is_file():
+            return JobState.ERROR
+        return None
 
     def getprocess(self):
         from experimaestro.connectors import Process
